@@ -187,3 +187,59 @@ Example c19_nonvacuous_dimensions :
   dims_covered needs_table (map caps_of_assignment (assignments (table_dims needs_table))) = true /\
   dims_covered needs_table [mkCaps [] [] []] = false.
 Proof. repeat split; vm_compute; reflexivity. Qed.
+
+(* ---- the configuration pipeline (GetConfig: user config -> with custom rules -> merged with the provided
+        configuration -> data.internal.combined_config): whatever custom rules are loaded, whether there is a user
+        configuration, with or without capabilities, and whatever the remaining linter options are (disable / enable
+        lists and flags, path prefix, input from paths or modules, ... : they travel in [lo_rest], outside of the
+        configuration), the capabilities the Rego side reads are those of the configured target:
+          configured_target u  :=  the capabilities of the user configuration, regal's own when there are none ---- *)
+Theorem c19_eval_capabilities_are_configured :
+  forall (R O X : Type) (this_version : caps) (provided_rules : R) (provided_other : O)
+         (merge_rules : R -> R -> R) (merge_other : O -> O -> O) (add_custom_rules : R -> list rule_id -> R)
+         (o : lopts R O X),
+  rego_capabilities R O X
+    (data_bundle R O X this_version provided_rules provided_other merge_rules merge_other add_custom_rules o)
+  = configured_target R O this_version (lo_user R O X o).
+Proof. exact eval_capabilities_are_configured. Qed.
+Print Assumptions c19_eval_capabilities_are_configured.
+
+(* the copy that names the fields to take over (seed C19-4) hands evaluation regal's own capabilities as soon as
+   one custom rule is loaded ... *)
+Theorem c19_eval_capabilities_are_configured_by_field_refuted :
+  forall (R O X : Type) (this_version : caps) (provided_rules : R) (provided_other : O)
+         (merge_rules : R -> R -> R) (merge_other : O -> O -> O) (add_custom_rules : R -> list rule_id -> R)
+         (u : uconfig R O) (c : caps) (r : rule_id) (x : X),
+  uc_caps R O u = Some c -> c <> this_version ->
+  rego_capabilities R O X
+    (data_bundle_with R O X this_version provided_rules provided_other merge_rules merge_other
+       (user_config_with_custom_rules_by_field R O X add_custom_rules) (mkOpts R O X (Some u) [r] x))
+  <> configured_target R O this_version (Some u).
+Proof. exact eval_capabilities_by_field_refuted. Qed.
+Print Assumptions c19_eval_capabilities_are_configured_by_field_refuted.
+
+(* ... and is right without custom rules: why no run with a configuration alone can tell the two apart *)
+Theorem c19_eval_capabilities_are_configured_by_field_partial :
+  forall (R O X : Type) (this_version : caps) (provided_rules : R) (provided_other : O)
+         (merge_rules : R -> R -> R) (merge_other : O -> O -> O) (add_custom_rules : R -> list rule_id -> R)
+         (o : lopts R O X),
+  lo_custom R O X o = [] ->
+  rego_capabilities R O X
+    (data_bundle_with R O X this_version provided_rules provided_other merge_rules merge_other
+       (user_config_with_custom_rules_by_field R O X add_custom_rules) o)
+  = configured_target R O this_version (lo_user R O X o).
+Proof. exact eval_capabilities_by_field_partial. Qed.
+Print Assumptions c19_eval_capabilities_are_configured_by_field_partial.
+
+(* non-vacuity: an old target with a custom rule loaded; the real pipeline keeps it, the by-field copy does not *)
+Example c19_ex_pipeline :
+  let this := mkCaps [s_object_keys; s_strings_count] [s_if] [s_rego_v1] in
+  let u := mkUC unit unit tt tt (Some c19_ex_old_target) in
+  let o := mkOpts unit unit unit (Some u) [([110], [114])] tt in
+  rego_capabilities unit unit unit
+    (data_bundle unit unit unit this tt tt (fun _ _ => tt) (fun _ _ => tt) (fun r _ => r) o) = c19_ex_old_target
+  /\ rego_capabilities unit unit unit
+    (data_bundle_with unit unit unit this tt tt (fun _ _ => tt) (fun _ _ => tt)
+       (user_config_with_custom_rules_by_field unit unit unit (fun r _ => r)) o) = this
+  /\ c19_ex_old_target <> this.
+Proof. repeat split; try (vm_compute; reflexivity). vm_compute. discriminate. Qed.
